@@ -82,7 +82,7 @@ static LongInt CutAdr(LongInt Adr) {
     if ((Adr & SignMask) != 0) {
         return (Adr | ORMask);
     } else {
-        return (Adr & SegLimits[SegCode]);
+        return (Adr & ~ORMask);
     }
 }
 
@@ -1213,8 +1213,14 @@ static void SwitchTo_AVR(void* pUser) {
     CodeAdrIntType = GetSmallestUIntType(SegLimits[SegCode]);
     DataAdrIntType = GetSmallestUIntType(SegLimits[SegData]);
 
-    SignMask = (SegLimits[SegCode] + 1) >> 1;
-    ORMask   = ((LongInt)-1) - SegLimits[SegCode];
+    /* CutAdr() works on word distances: use the size in words, also in byte mode */
+
+    {
+        LongInt WordLimit = SegLimits[SegCode] >> (CodeSegSize ? 0 : 1);
+
+        SignMask = (WordLimit + 1) >> 1;
+        ORMask   = ((LongInt)-1) - WordLimit;
+    }
 
     AddONOFF("WRAPMODE", &WrapFlag, WrapFlagName, False);
     AddONOFF("PACKING", &Packing, PackingName, False);
